@@ -7,16 +7,22 @@
 (* years/months is ordinal addition; Normalize is idempotent and lands on  *)
 (* real days; month overflow carries into years.                           *)
 (***************************************************************************)
-EXTENDS DateRef
+EXTENDS DateRef, SequencesExt
 
 Ys == {0, 1, 4, 100, 400, 1899, 1900, 1999, 2000, 2023, 2024, 9999}
 MDs == {<<1, 1>>, <<1, 31>>, <<2, 28>>, <<2, 29>>, <<3, 1>>, <<6, 30>>, <<7, 31>>, <<12, 31>>}
 Dates == {D(yy, md[1], md[2]) : yy \in Ys, md \in MDs} \cap {x \in [y : Ys, m : 1..12, d : 1..31] : ValidDate(x)}
 
-VARIABLES a, b
-vars == <<a, b>>
-Init == a \in Dates /\ b \in Dates
-Next == UNCHANGED vars
+DSeq == SetToSeq(Dates)
+N == Cardinality(Dates)
+
+\* all ordered pairs, as N parallel chains (a fixed, b walking through the set)
+VARIABLES i, j
+vars == <<i, j>>
+a == DSeq[i]
+b == DSeq[j]
+Init == i \in 1..N /\ j = 1
+Next == j < N /\ j' = j + 1 /\ i' = i
 Spec == Init /\ [][Next]_vars
 
 B2I(x) == IF x THEN 1 ELSE 0
@@ -28,7 +34,7 @@ Order ==
   /\ Before(a, b) <=> After(b, a)
   /\ SubDays(a, b) = -SubDays(b, a)
 
-Inverse ==
+InverseLaw ==
   /\ Civil(Ord(a)) = a
   /\ Ord(NextDay(a)) = Ord(a) + 1
   /\ a.y > 0 => Ord(PrevDay(a)) = Ord(a) - 1
